@@ -31,6 +31,9 @@
 #ifndef PROP
 #define PROP 0
 #endif
+#ifndef MANUAL
+#define MANUAL 0       // 1: manual activation; histories may deactivate and re-activate the machine ("since activation")
+#endif
 #define PSEL(p) (PROP == 0 || PROP == (p))
 #define VA(c, id) do { if (PSEL((id) / 100)) vassert((c), (id)); } while (0)
 #ifndef OPS
@@ -43,11 +46,16 @@
 #define NST 3
 #endif
 static const int INV = 255;
+#if MANUAL
+typedef ffsm2::Config::ManualActivation BaseCfg;
+#else
+typedef ffsm2::Config BaseCfg;
+#endif
 #if PAYLOAD
 struct Pay { unsigned v; unsigned short w; };
-using M = ffsm2::MachineT<ffsm2::Config::TaskCapacityN<CAP>::SubstitutionLimitN<LIMIT>::PayloadT<Pay>>;
+using M = ffsm2::MachineT<BaseCfg::TaskCapacityN<CAP>::SubstitutionLimitN<LIMIT>::PayloadT<Pay>>;
 #else
-using M = ffsm2::MachineT<ffsm2::Config::TaskCapacityN<CAP>::SubstitutionLimitN<LIMIT>>;
+using M = ffsm2::MachineT<BaseCfg::TaskCapacityN<CAP>::SubstitutionLimitN<LIMIT>>;
 #endif
 template <int I> struct St; struct Rt;
 #if NST == 2
@@ -269,6 +277,9 @@ extern "C" int harness(void) {
   Logger lg;
   g = &slot.obj; call_kind = CALL_OTHER; passive = PREFIX;
   Inst* m = new (&slot.obj) Inst(&lg);
+#if MANUAL
+  m->enter();
+#endif
   VA(mon_active == 0, 100);
   compare_plan_with_model(830);
 #if PREFIX
@@ -298,6 +309,10 @@ extern "C" int harness(void) {
           } mn--; } }
       else if (op == 7) { int d = nondet_below(NST); exp_tr = true; m->changeTo(d); exp_tr = false; }
       else if (op == 8) { int d = nondet_below(NST); exp_tr = true; m->immediateChangeTo(d); exp_tr = false; }
+#if MANUAL
+      else if (op == 9) { passive = true; m->exit(); m->enter(); passive = false;      // deactivate and re-activate: a fresh activation
+        mn = 0; model_clear_reports(); ever_added = false; }
+#endif
       settle_firings();
       VA(n_fired == 0 && n_psucc + n_pfail == 0, 812);                      // nothing fires and no outcome outside update()/react()
       VA(g->activeStateId() == (mon_active < 0 ? INV : mon_active), 120);
@@ -306,6 +321,9 @@ extern "C" int harness(void) {
   }
   vwitness(9001);
   call_kind = CALL_OTHER;
+#if MANUAL
+  passive = true; m->exit();
+#endif
   m->~Inst();
   VA(mon_active == -1, 140);
   return 0;
